@@ -1221,6 +1221,88 @@ def _t_keys(g):
     g.data_next = max(g.data_next, 1)
 
 
+def _t_keysbig(g):
+    """C23: few instances in a HUGE bounding box.  1-2 classes of independent tasks with 3-4 parameters, each
+    taking 2-6 values spread by a large step (2^10 .. 2^30) over a range of 2^k (sometimes +-1) values, negative
+    lower bounds; the product of the ranges of the leading parameters (the multiplier of the last digit of the
+    key) is drawn from {2^31 - small, 2^31 + small, 2^32, 2^40, 2^62..2^63}; the total stays <= 2^64, inside the
+    hypothesis of C23_keys_injective.  Every range fits an int (<= 2^30), every value an int32."""
+    r = g.r
+    target = getattr(g, "big_target", None)
+    for _ in range(r.range(1, 2)):
+        c = Cls(next(g.names))
+        g.p.classes.append(c)
+        kind = target or r.pick(["31-", "31+", "32", "40", "63"])
+        np_ = 4 if kind == "63" else r.pick([3, 3, 4])
+        nlead = np_ - 1
+        e = {"31-": 31, "31+": 31, "32": 32, "40": 40, "63": r.pick([62, 63])}[kind]
+        if e > 30 * nlead:
+            e = 30 * nlead
+        # split the exponent over the leading parameters, each at most 30 and at least 1
+        exps = [1] * nlead
+        left = e - nlead
+        while left > 0:
+            i = r.below(nlead)
+            if exps[i] < 30:
+                exps[i] += 1
+                left -= 1
+        boxes = [1 << x for x in exps]
+        if kind in ("31-", "31+"):
+            i = max(range(nlead), key=lambda j: exps[j])
+            boxes[i] += -1 if kind == "31-" else 1
+        last_box = r.pick([2, 2, 3]) if e < 62 else 2
+        if e >= 63:
+            last_box = 2
+        boxes.append(last_box)
+        names = ["k", "m", "n", "q"]
+        total = 1
+        for d, R in enumerate(boxes):
+            # values lo, lo+st, ..., lo+(cnt-1)*st with (cnt-1)*st = R-1: the bounding box has exactly R values
+            cands = [cnt for cnt in (2, 3, 4, 6) if R > 1 and (R - 1) % (cnt - 1) == 0 and total * cnt <= 150]
+            if R == 1:
+                cnt, st = 1, 1
+            elif cands and r.chance(3, 4):
+                cnt = r.pick(cands)
+                st = (R - 1) // (cnt - 1)
+            else:
+                cnt, st = 2, R - 1                # the two end points of the range
+            total *= cnt
+            lo = r.pick([0, -(R // 2), -(R // 2), -(R - 1), -r.range(0, min(R - 1, 1000))])
+            hi = lo + (cnt - 1) * st
+            lo_e, hi_e = C(lo), C(hi)
+            if r.chance(1, 4):
+                gi = g.new_global(r.range(1, 9))
+                lo_e = simp(B("sub", B("add", C(lo), G(gi)), G(gi)))
+            st_e = C(st) if not r.chance(1, 4) else G(g.new_global(st))
+            c.locals.append(Local(names[d], 'R', lo_e, hi_e, st_e))
+            if r.chance(1, 5):
+                c.locals.append(Local("w%d" % d, 'V', e=simp(B("div", L(len(c.locals) - 1), C(3)))))
+        c.params = [i for i, l in enumerate(c.locals) if l.kind == 'R']
+        c.flows.append(Flow("A", 'R', [Dep(True, None, ('M', [C(0)]))]))
+    g.data_next = max(g.data_next, 1)
+
+
+def range_boxes(p):
+    """per class: the ranges (max - min + 1 with the generated code's initial values) of the parameters in
+    definition order — what make_key multiplies"""
+    out = []
+    for c in p.classes:
+        bs = []
+        for pos, l in enumerate(c.locals):
+            if pos not in c.params:
+                continue
+            if l.kind != 'R':
+                bs.append(1)
+                continue
+            mn, mx = 0x7fffffff, 0
+            for env in enum(p.gvals, c.locals[:pos]):
+                a, b = ev(p.gvals, list(env), l.lo), ev(p.gvals, list(env), l.hi)
+                mn, mx = min(mn, a, b), max(mx, a, b)
+            bs.append(mx - mn + 1)
+        out.append(bs)
+    return out
+
+
 def _leaves(e):
     if e[0] == 'b':
         return _leaves(e[2]) + _leaves(e[3])
